@@ -71,6 +71,12 @@ def run(rep):
              floor=1)
     rep.rule('R19.5', 'registry entry points unwrap the proxy (__self__) after '
              'the lookup and before calling the factory', floor=2)
+    rep.rule('R19.6', 'adaptation of a super proxy stays correct after later '
+             'declaration changes: the (in place updated) synthesized specification '
+             'invalidates the lookup caches only if the lookup object subscribed to '
+             'it - _uncached_lookup subscribes to the complete required tuple on '
+             'every exit, hit or miss, and _subscribe to every specification in it '
+             '(shared with C04 R04.7 / C05 INV-4)', floor=2)
     rep.decline('that the synthesized specification equals "interfaces of the '
                 'classes after C" for every class DAG (depends on C3 merging, '
                 'C03)')
@@ -167,3 +173,8 @@ def run(rep):
     ccheck(rep, 'R19.5', '_adapter_hook', not probs,
            'C twin unwraps __self__ of a super proxy before the factory call'
            if not probs else {'problems': sorted(set(probs))[:3]}, construct='unwrap')
+
+    from .C05 import subscribe_on_all_exits, subscribe_all_spec
+    amod_ = rep.repo.module('adapter.py')
+    subscribe_on_all_exits(rep, amod_, 'R19.6', only=('_uncached_lookup',))
+    subscribe_all_spec(rep, amod_, 'R19.6')
